@@ -54,6 +54,15 @@ def cases(tier, seed, chaos=0.25):
             if tier != 'quick' or rng.random() < 0.2:
                 add('$string(%s.%s.%s)' % (fv, nm, rng.choice(fields)), None, ('funcfield',))
                 add('[%s, %s].%s' % (fv, rng.choice(fvals[:7]), nm), None, ('funcfield',))
+    # every higher-order built-in with callbacks of every arity 0..6 (lambdas, typed lambdas, multi-parameter built-ins, partials)
+    cbs = ['function(){1}', 'function($a){$a}', 'function($a,$b){$b}', 'function($a,$b,$c){$c}', 'function($a,$b,$c,$d){$d}', 'function($a,$b,$c,$d,$e){$e}', 'function($a,$b,$c,$d,$e,$g){$g}',
+           '$replace', '$substring', '$pad', '$split', '$formatNumber', '$reduce', '$replace(?, ?, ?, ?)', '$substring(?, ?, ?)', 'function($a,$b,$c,$d)<xxxx:x>{$d}', '$sum', '$string', '$zip', '$append', '$match', '/a/']
+    hofs = ['$map(%s, %s)', '$filter(%s, %s)', '$single(%s, %s)', '$reduce(%s, %s)', '$reduce(%s, %s, 0)', '$each(%s, %s)', '$sift(%s, %s)', '$sort(%s, %s)', '$replace("aXbX", "X", %.0s%s)', '$replace("aXbX", /X/, %.0s%s)', '%s ~> %s']
+    subs = ['[1]', '[1,2,3]', '["a","b"]', '5', '{"a":1,"b":2}', '[{"a":1}]', '[]', 'nothing', '[[1]]']
+    for h in hofs:
+        for cb in cbs:
+            for sb in (rng.sample(subs, 3) if tier == 'quick' else subs):
+                add(h % (sb, cb), None, ('hof-arity',))
     # every built-in at every arity 0..4 with chaotic arguments
     atoms = ['1', '"s"', 'true', 'null', '[]', '[1,2]', '{}', '{"a":1}', '$sum', 'function($x){$x}', 'nothing', '/a/', '-1', '1e300', '""', '[[1]]', '["a","b"]', '$', 'a']
     for (name, rt, ats) in BUILTINS + [('error', 'x', ['s']), ('fromMillis', 's', ['n']), ('toMillis', 'n', ['s']), ('match', 'a', ['s', 'f']), ('encodeUrl', 's', ['s']), ('decodeUrl', 's', ['s'])]:
@@ -64,7 +73,7 @@ def cases(tier, seed, chaos=0.25):
 
 def run(tier, seed, replay=None):
     return simple_run('C09', tier, seed, replay,
-        'name steps on function values for every struct field identifier found in the implementation source x 18 consumers; type-directed (chaos 3%) and type-chaotic (chaos 25%) programs of depth <= 4 over every node type and every built-in at arities 0..4 with arguments of every kind incl. functions used as data, '
+        'every higher-order built-in x 22 callbacks of arity 0..6 x 9 subjects; name steps on function values for every struct field identifier found in the implementation source x 18 consumers; type-directed (chaos 3%) and type-chaotic (chaos 25%) programs of depth <= 4 over every node type and every built-in at arities 0..4 with arguments of every kind incl. functions used as data, '
         'nested arrays, regexes, huge numbers; JSON inputs incl. nulls, empty containers and arrays nested in arrays; corpus of every quoted witness; sizes bounded; '
         'a panic or hang of the implementation is the violation; outcome classes are also compared with the model; distinct = distinct (expression, input)',
         cases, owner_direct=(), value_compare=False)
